@@ -124,6 +124,30 @@ def main(chk):
         ev.update({"id": len(events) + 1, "a": st["a"], "b": st["b"], "c": st["c"], "ks": st["ks"]})
         events.append(ev)
         chk.count("op_" + op)
+    # code -> spec: the same combinators over random declarations nested up to three levels
+    from . import deep
+    none_abs = {"t": "none"}
+    none_real = cache.get(none_abs)[0]
+    ndeep = 250 if quick else 2500
+    pool = deep.schemas(chk.rng, ndeep * 3, 2) + deep.schemas(chk.rng, ndeep, 3)
+    dicts = [p for p in pool if p[0]["t"] == "dict" and p[0]["keys"]]
+    for i in range(ndeep):
+        (sa, ra), (sb, rb), (sc, rc) = (chk.rng.choice(pool) for _ in range(3))
+        cases = [("union", (sa, ra), (sb, rb), (none_abs, none_real), []),
+                 ("any3", (sa, ra), (sb, rb), (sc, rc), []),
+                 ("alias", (sa, ra), (none_abs, none_real), (none_abs, none_real), [])]
+        if len(dicts) >= 2:
+            (da, rda), (db, rdb) = chk.rng.choice(dicts), chk.rng.choice(dicts)
+            names = [p["key"] for p in da["keys"][0] if p["key"].get("k") != "ellipsis"]
+            ks = [] if (i % 3 == 0 or not names) else [chk.rng.sample(names, chk.rng.randrange(1, len(names) + 1))]
+            cases += [("add", (da, rda), (db, rdb), (none_abs, none_real), []),
+                      ("make_required", (da, rda), (none_abs, none_real), (none_abs, none_real), ks),
+                      ("getitem", (da, rda), (none_abs, none_real), (none_abs, none_real), [])]
+        for op, (xa, xra), (xb, xrb), (xc, xrc), ks in cases:
+            ev = observe(op, xra, xrb, xrc, ks, 25 if quick else 60, chk.rng)
+            ev.update({"id": len(events) + 1, "a": xa, "b": xb, "c": xc, "ks": ks})
+            events.append(ev)
+            chk.count("deep_" + op)
     for op in ("union", "any3", "add", "make_required", "alias", "getitem", "add_bad"):
         chk.require(chk.counts.get("op_" + op, 0) > 0, "no combination replayed for " + op)
     chk.require(len(events) >= 1000, "fewer than 1000 combinations (%d)" % len(events))
